@@ -84,3 +84,11 @@ package snapstate
 //@   loop 7: invariant [from-oldest] 0 <= i
 //@   loop 7: step [advance] i == old(i) + 1
 //@   loop 7: step [discarded-unless-in-use] called("removeInactiveRevision") || bootNeeds(instanceNameOf(snapsup), old(seq[i].Snap.Revision.N))
+
+// the in-use oracle handed to doInstall is the boot package's, for every kind of device: the closure
+// built by inUseFor asks boot.InUse with the snap type it was given and this device context, and returns
+// exactly its answer (no device class is exempted here)
+//@ func inUseFor$1
+//@   props C12
+//@   guard call boot.InUse: [asks-boot] arg0 == typ && arg1 == deviceCtx
+//@   ensures [always-asks-boot] called("boot.InUse")
